@@ -3,6 +3,7 @@ package rules
 import (
 	"fmt"
 	"go/ast"
+	"go/constant"
 	"go/token"
 	"go/types"
 	"strings"
@@ -589,6 +590,27 @@ func typedNil(c *core.Ctx) {
 					return true, "dominated by a != nil test"
 				}
 			}
+			// the same test behind a predicate helper: `func isSet(e *Error) bool { return e != nil }`
+			for _, ref := range *refs {
+				call, ok := ref.(*ssa.Call)
+				if !ok {
+					continue
+				}
+				callee := call.Call.StaticCallee()
+				if callee == nil || callee.Pkg != sp || len(callee.Blocks) == 0 || call.Call.IsInvoke() {
+					continue
+				}
+				for i, a := range call.Call.Args {
+					if a != v || i >= len(callee.Params) {
+						continue
+					}
+					for _, want := range []bool{true, false} {
+						if resultImpliesNonNil(callee, callee.Params[i], want) && dominatedByBranch(call, want, at) {
+							return true, "dominated by a != nil test in " + callee.Name()
+						}
+					}
+				}
+			}
 		}
 		if callNote != "" {
 			return false, callNote
@@ -637,6 +659,89 @@ func typedNil(c *core.Ctx) {
 	c.Ok("inventory", token.NoPos, "%d *Error -> interface conversion(s) in %d function(s) of package connect, %d not provably non-nil", sites, len(fns), bad)
 	c.Ok("inventory/constructors", token.NoPos, "%d conversion(s) of another first-party constructor's pointer result to an interface, each from a function whose every return is non-nil", otherSites)
 	c.Floor("*Error -> interface conversions", sites, 30)
+}
+
+// resultImpliesNonNil: the bool function returns `want` only when param is not nil. Every returned
+// value is the test itself (`param != nil` for want, `param == nil` for !want), the constant !want,
+// a value computed where the test has already gone the right way, or a phi of such values.
+func resultImpliesNonNil(f *ssa.Function, param *ssa.Parameter, want bool) bool {
+	if f.Signature.Results().Len() != 1 {
+		return false
+	}
+	guardedAt := func(b *ssa.BasicBlock) bool {
+		if refs := param.Referrers(); refs != nil {
+			for _, ref := range *refs {
+				if bo, ok := ref.(*ssa.BinOp); ok && (bo.Op == token.NEQ || bo.Op == token.EQL) && isNilTestOf(bo, param) {
+					if dominatedByBranch(bo, bo.Op == token.NEQ, b) {
+						return true
+					}
+				}
+			}
+		}
+		return false
+	}
+	var okValue func(v ssa.Value, at *ssa.BasicBlock, depth int) bool
+	okValue = func(v ssa.Value, at *ssa.BasicBlock, depth int) bool {
+		if depth > 4 {
+			return false
+		}
+		if guardedAt(at) {
+			return true
+		}
+		switch x := v.(type) {
+		case *ssa.Const:
+			if x.Value != nil && x.Value.Kind() == constant.Bool {
+				return constant.BoolVal(x.Value) == !want
+			}
+		case *ssa.BinOp:
+			if isNilTestOf(x, param) {
+				return (x.Op == token.NEQ) == want
+			}
+		case *ssa.UnOp:
+			if x.Op == token.NOT {
+				if bo, ok := x.X.(*ssa.BinOp); ok && isNilTestOf(bo, param) {
+					return (bo.Op == token.EQL) == want
+				}
+			}
+		case *ssa.Phi:
+			for i, e := range x.Edges {
+				if !okValue(e, x.Block().Preds[i], depth+1) {
+					return false
+				}
+			}
+			return true
+		}
+		return false
+	}
+	returns := 0
+	for _, b := range f.Blocks {
+		for _, ins := range b.Instrs {
+			if ret, ok := ins.(*ssa.Return); ok {
+				returns++
+				if len(ret.Results) != 1 || !okValue(ret.Results[0], b, 0) {
+					return false
+				}
+			}
+		}
+	}
+	return returns > 0
+}
+
+func isNilTestOf(bo *ssa.BinOp, param *ssa.Parameter) bool {
+	if bo.Op != token.NEQ && bo.Op != token.EQL {
+		return false
+	}
+	var other ssa.Value
+	switch {
+	case bo.X == ssa.Value(param):
+		other = bo.Y
+	case bo.Y == ssa.Value(param):
+		other = bo.X
+	default:
+		return false
+	}
+	cst, ok := other.(*ssa.Const)
+	return ok && cst.IsNil()
 }
 
 // dominatedByBranch reports whether block `at` is dominated by the successor taken when cond == want.
